@@ -96,11 +96,27 @@ CLAIMED = {
             "the I2 counterexample for the pre-repair protocol (non-vacuity); failure scenarios are replayed for real; per base scenario "
             "every fault point of the fault-free run is enumerated against the fault-injecting proxy and each observed state is validated by TLC.",
             "fault_enumeration-strength evidence inside a model_checking claim; a fault is an OSError raised before the call takes effect."),
+    "C16": ("convert", "6/C16",
+            "TLC enumerates bounded SM sources (timing strings incl. negative BPMs/stops, FREEZES/ANIMATIONS aliases, SSC-only keys "
+            "present, 0..2 charts, custom templates) and checks the specified conversion: every source property kept, template supplies "
+            "the rest, charts in order, NotImplementedError iff a negative value; each case is converted for real and compared; random "
+            "sources (blank, corpus, generated) with and without templates are converted and each recorded call is validated by TLC incl. "
+            "source/templates unmodified, no shared mutable object (edits after the call do not leak), same timing data and notes through "
+            "the library's readers, result loads back equal.",
+            "well-formed timing strings; FREEZES is the recorded known finding."),
+    "C17": ("convert", "6/C17",
+            "TLC enumerates bounded SSC sources (one representative SSC-only key per kind at simfile and chart level, every order, "
+            "empty/default/padded/non-default) under every total or partial behaviour mapping; the conversion fold equals its declarative "
+            "statement, InvalidPropertyException names the first offending property, NotImplementedError iff warps, no other outcome; "
+            "every case is replayed; random sources x mappings x templates and sm_to_ssc round trips are validated call by call by TLC.",
+            "SSC-only values are strings (key-only None outside the domain); chart keys SM cannot hold are the recorded known finding; blank-only WARPS unclaimed."),
 }
 
 PENDING = {}
 
 ENGINES = [
+    ("convert", "spec/convert", ["C16", "C17"],
+     "Convert.tla (kind tables, behaviour decision, conversion folds + declarative statement) + MC_Convert (TLC BFS) + Trace_Convert"),
     ("library", "spec/library", ["C05", "C06"],
      "Library.tla + MC_Library (mutate protocol with faults, two save protocols; TLC BFS) + Trace_Library (per-call filesystem snapshots) + harness/fsproxy.py (recording, fault-injecting PyFilesystem)"),
     ("timing", "spec/timing", ["C11", "C12", "C13"],
